@@ -679,7 +679,7 @@ func ruleMethodRewrite(c *Ctx) {
 		return ok && g.Name() == "ErrMethodNotAllowed" && g.Pkg != nil && g.Pkg.Pkg.Name() == "reserr"
 	}
 	seesMethod := func(fn *ssa.Function) bool {
-		for _, g := range WithClosures(TopLevel(fn)) {
+		for _, g := range p.withHelpers(TopLevel(fn)) {
 			for _, in := range instrsOf(g) {
 				if v, ok := in.(ssa.Value); ok {
 					if f, _ := fieldLoad(v); isMethodField(f) {
